@@ -4,7 +4,7 @@ ID=$1; shift
 trap 'cd /repo && git checkout -- . ' EXIT PIPE INT TERM
 cd /repo && git apply /verif/seeded/$ID/patch.diff || { echo "cannot apply"; exit 2; }
 for P in "$@"; do
-  cd /verif && ./check $P --tier quick 2>&1 | grep -v conda | grep -E "VIOLATION|KNOWN|tier=|CRASH|UNDECIDED" | head -6
+  cd /verif && ./check $P --tier quick 2>&1 | grep -v conda | grep -E "VIOLATION|tier=|CRASH|UNDECIDED" | head -6
   echo "  -> $P exit=${PIPESTATUS[0]}"
 done
 cd /repo && git checkout -- . && git status --short | head -3
